@@ -505,8 +505,87 @@ pub fn run(rep: &mut Report, thorough: bool) {
             }
         }
     }
+    single_instant_handles(rep, &mut rng, if thorough { 20 } else { 4 });
     rep.require("raw_streams_compared", 50);
     rep.require("memory_info_entries_compared", 100);
     rep.require("linker_streams_compared", 5);
     rep.require("system_info_compared", 5);
+}
+
+
+fn fd_snapshot(pid: i32) -> Vec<(u64, String)> {
+    let mut v: Vec<(u64, String)> = std::fs::read_dir(format!("/proc/{pid}/fd"))
+        .map(|rd| rd.flatten().filter_map(|e| Some((e.file_name().to_string_lossy().parse().ok()?, std::fs::read_link(e.path()).ok()?.to_string_lossy().into_owned()))).collect())
+        .unwrap_or_default();
+    v.sort();
+    v
+}
+
+/// The handle stream describes the target at the instant its threads were suspended: a thread
+/// keeps changing the descriptor table; the harness snapshots /proc/<pid>/fd when all threads are
+/// suspended, and lets the target run (SIGCONT + wait for progress) right after the writer resumed
+/// them. Whatever the writer reads after that point would show a different table.
+fn single_instant_handles(rep: &mut Report, rng: &mut Rng, n: usize) {
+    use minidump_writer::verif_hooks::{self, Point};
+    use std::sync::{Arc, Mutex};
+    for k in 0..n {
+        let mut b = Builder::new();
+        b.sentinel(rng, Mode::Pause, &StackShape::default(), None, None);
+        let churn = b.thread(ThreadKind::FdChurner, Some(b"churner".to_vec()));
+        for _ in 0..(k % 3) {
+            b.spec.fds.push(FdSpec::Pipe);
+        }
+        let t = match Target::spawn(b.spec.clone(), &b.opts) {
+            Ok(t) => Arc::new(t),
+            Err(e) => {
+                rep.inconclusive(format!("fd-churner target did not start: {e}"));
+                continue;
+            }
+        };
+        let snap: Arc<Mutex<Option<Vec<(u64, String)>>>> = Arc::new(Mutex::new(None));
+        let (s2, t2) = (snap.clone(), t.clone());
+        let o = DumpOpts::new(t.pid, t.pid);
+        let _g = dump::DUMP_LOCK.lock().unwrap_or_else(|e| e.into_inner());
+        verif_hooks::set_sync(Some(Box::new(move |p| match p {
+            Point::ThreadsSuspended => {
+                *s2.lock().unwrap() = Some(fd_snapshot(t2.pid));
+            }
+            Point::AfterResume => {
+                // somebody continues the process (a supervisor, job control): legitimate at any time
+                unsafe {
+                    libc::kill(t2.pid, libc::SIGCONT);
+                }
+                let before = t2.ctl.slot(churn, SLOT_HEARTBEAT);
+                let t0 = std::time::Instant::now();
+                while t2.ctl.slot(churn, SLOT_HEARTBEAT) < before + 20 && t0.elapsed().as_secs() < 10 {
+                    std::thread::sleep(std::time::Duration::from_micros(200));
+                }
+            }
+            _ => {}
+        })));
+        let (out, _) = dump::dump(&o);
+        verif_hooks::set_sync(None);
+        drop(_g);
+        rep.case(fnv(format!("instant/{k}").as_bytes()), true);
+        match out {
+            Outcome::Ok(img) => {
+                let im = image::decode(&img);
+                let want = snap.lock().unwrap().clone();
+                let (Some(want), Some(h)) = (want, im.handles.as_ref()) else {
+                    rep.inconclusive("no descriptor snapshot / no handle stream".into());
+                    continue;
+                };
+                let mut got: Vec<(u64, String)> = h.iter().map(|x| (x.handle, x.object_name.clone().unwrap_or_default())).collect();
+                got.sort();
+                rep.count("single_instant_handle_checks", 1);
+                if got != want {
+                    let diff: Vec<&(u64, String)> = got.iter().filter(|x| !want.contains(x)).chain(want.iter().filter(|x| !got.contains(x))).take(4).collect();
+                    rep.violation("C18 handle stream does not describe the descriptors the target had while it was suspended", json!({"differing_entries": diff, "listed": got.len(), "at_suspension": want.len()}));
+                }
+            }
+            Outcome::Err(e) => rep.violation("C18 dump failed on a healthy target", json!({"case": "fd churner", "error": e.chars().take(200).collect::<String>()})),
+            Outcome::Panic { message, location } => rep.violation(&format!("C18 panic at {location}"), json!({"panic": message})),
+        }
+    }
+    rep.require("single_instant_handle_checks", 2);
 }
